@@ -93,6 +93,72 @@ func genC02(g *genCtx) {
 		d := pool[r.intn(len(pool))]
 		g.add(&Case{Kind: "sel", Doc: d, Ctx: pickNodeCtx(r, d), Expr: genFilteredPath(r, r.intn(3))})
 	}
+	// state-leak stress: every ordered pair of axes as an existence predicate, both joints, on documents
+	// made of few names and repeated similar subtrees, so that a candidate which abandons a traversal
+	// half-way is followed by candidates that have to start theirs afresh
+	leakPf := Profile{Names: []string{"a", "b"}, AttrN: []string{"k"}, Values: []string{"1", ""}, TextPct: 6, CommPct: 0, AttrPct: 20}
+	leakPool := docPool(r, leakPf, 4, 1, g.scale(100, 400), 18)
+	for i := 0; i < g.scale(300, 1200); i++ {
+		leakPool = append(leakPool, leakDoc(r))
+	}
+	tests := []string{"a", "b", "a", "b", "*"}
+	for _, a1 := range axes12 {
+		for _, a2 := range axes12 {
+			for _, jn := range []string{"/", "//"} {
+				n := g.scale(20, 100)
+				if strings.HasPrefix(a1, "descendant") && (a2 == "child" || strings.HasPrefix(a2, "descendant")) {
+					n *= 12 // the descendant-over-descendant rewrite keeps the most state between candidates
+				}
+				for k := 0; k < n; k++ {
+					d := leakPool[r.intn(len(leakPool))]
+					inner := a1 + "::" + r.pick(tests) + jn + a2 + "::" + r.pick(tests)
+					outer := r.pick([]string{"//*", "//a", "//b", "/*/*", "//*/*"})
+					e := outer + "[" + inner + "]"
+					if r.chance(1, 4) {
+						e = outer + "[not(" + inner + ")]"
+					}
+					g.add(&Case{Kind: "sel", Doc: d, Ctx: Ref{0, -1}, Expr: e})
+				}
+			}
+		}
+	}
+}
+
+// leakDoc: a row of sibling candidates of the same name, each holding a few subtrees drawn from a
+// small library (no match / one match / two matches / nested matches), so that consecutive
+// candidates differ exactly in what a leaked iterator state would get wrong.
+func leakDoc(r *rng) Doc {
+	d := Doc{{Depth: 0, Kind: 'r'}}
+	base := 1
+	if r.chance(1, 2) {
+		d = append(d, Rec{Depth: 1, Kind: 'e', Name: r.pick([]string{"a", "b"})})
+		base = 2
+	}
+	lib := [][]Rec{
+		{},
+		{{Depth: 0, Kind: 'e', Name: "a"}},
+		{{Depth: 0, Kind: 'e', Name: "b"}},
+		{{Depth: 0, Kind: 'e', Name: "a"}, {Depth: 1, Kind: 'e', Name: "b"}},
+		{{Depth: 0, Kind: 'e', Name: "b"}, {Depth: 1, Kind: 'e', Name: "a"}},
+		{{Depth: 0, Kind: 'e', Name: "a"}, {Depth: 1, Kind: 'e', Name: "a"}, {Depth: 2, Kind: 'e', Name: "b"}},
+		{{Depth: 0, Kind: 'e', Name: "a"}, {Depth: 1, Kind: 'e', Name: "b"}, {Depth: 1, Kind: 'e', Name: "a"}},
+		{{Depth: 0, Kind: 'e', Name: "b"}, {Depth: 1, Kind: 't', Data: "1"}},
+		{{Depth: 0, Kind: 'e', Name: "a", Attrs: []Attr{{Name: "k", Val: "1"}}}},
+	}
+	cand := r.pick([]string{"a", "b"})
+	n := 3 + r.intn(3)
+	weighted := []int{0, 1, 2, 3, 3, 3, 4, 5, 6, 6, 7, 8}
+	for i := 0; i < n; i++ {
+		d = append(d, Rec{Depth: base, Kind: 'e', Name: cand})
+		k := r.intn(3)
+		for j := 0; j < k; j++ {
+			for _, rec := range lib[weighted[r.intn(len(weighted))]] {
+				rec.Depth += base + 1
+				d = append(d, rec)
+			}
+		}
+	}
+	return d
 }
 
 func genC03(g *genCtx) {
@@ -123,7 +189,9 @@ func genAnyExpr(r *rng) string {
 		return genPathPF(r, 1, nodeTests) + " | " + genPathPF(r, 2, nodeTests)
 	default:
 		return r.pick([]string{"count(//a)", "ancestor::a = '1x'", "(//b)[1] = //b", "string-join(//a, ',')", "//b[ancestor::a]", "//*[following::b]",
-			"//a[preceding::b]", "//*[descendant::a/descendant::b]", "//a[last()]", "reverse(//a)", "sum(//@k)", "boolean(//a[b])", "name(//*[2])"})
+			"//a[preceding::b]", "//*[descendant::a/descendant::b]", "//a[last()]", "reverse(//a)", "sum(//@k)", "boolean(//a[b])", "name(//*[2])",
+			"*[*][last()]", "//*[*][last()]", "*[@k][last()]", "count(*[*][last()]/*)", "string(*[node()][last()]/@k)", "//a[b][last()]", "a[1][last()]",
+			"//*[b[1]]", "*[*[2]]", "(*)[2]", "//*[(*)[1]]", "//*[a | b]", "*[a[@k] | b]"})
 	}
 }
 
@@ -291,8 +359,8 @@ func genStrLit(r *rng) string {
 	return "'" + sb.String() + "'"
 }
 
-var startLens = []string{"-9007199254740992", "-7", "-3", "-2", "-1.5", "-1", "-0.5", "0", "0.5", "1", "1.5", "2", "2.5", "3", "3.5", "4", "5", "6", "7", "12", "9007199254740992",
-	"1 div 0", "-1 div 0", "100000000000000000000"}
+var startLens = []string{"-1 div 0", "0 div 0", "1 div 0", "-7", "-3", "-2", "-1.5", "-1", "-0.5", "0", "0.5", "1", "1.5", "2", "2.5", "3", "3.5", "4", "5", "6", "7", "12",
+	"-9007199254740992", "9007199254740992", "100000000000000000000", "number('x')"}
 
 // genStrExpr: C09 fragment
 func genStrExpr(r *rng, depth int) string {
@@ -352,7 +420,7 @@ func genC09(g *genCtx) {
 	strs := []string{"", "a", "ab", "abc", "12345", "abcdef"}
 	sl := startLens
 	if !g.thorough() {
-		sl = startLens[1:21]
+		sl = startLens[:22]
 	}
 	d0 := pool[0]
 	for _, s := range strs {
@@ -611,7 +679,12 @@ func genC11(g *genCtx) {
 			b = genPathPF(r, 1+r.intn(2), tests)
 		}
 		var e string
-		switch r.intn(6) {
+		switch r.intn(8) {
+		case 6:
+			// a left operand that rejects candidates (and so moves the shared cursor) before a relative right operand
+			e = r.pick(tests) + "[" + r.pick([]string{"@k", "@a", "a", "b", "@zz", "text()", "*", "not(*)", "@k='1'"}) + "] | " + r.pick(tests)
+		case 7:
+			e = "./(" + r.pick(tests) + "[" + r.pick([]string{"@k", "a", "@zz", "*"}) + "], " + r.pick(tests) + ")"
 		case 0:
 			e = a + " | " + b + " | " + genPathPF(r, 1, tests)
 		case 1:
@@ -745,7 +818,9 @@ func genC13(g *genCtx) {
 			}
 			g.add(&Case{Kind: "meta", Doc: d, Ctx: n, Expr: p, Extra: "set;" + root.String() + ";" + hx(full)})
 		default:
-			p := r.pick([]string{genPathPF(r, 1+r.intn(2), nodeTests), genFilteredPath(r, 0)})
+			p := r.pick([]string{genPathPF(r, 1+r.intn(2), nodeTests), genFilteredPath(r, 0),
+				r.pick([]string{"a", "b", "*", "node()"}) + "[" + r.pick([]string{"a", "b", "@k", "@zz", "*", "text()", "not(*)"}) + "]",
+				r.pick([]string{"a", "b", "*"}) + "[" + genBoolPred(r, 0) + "]"})
 			if strings.HasPrefix(p, "(") {
 				continue
 			}
